@@ -310,7 +310,7 @@ int main(int argc, char **argv) {
             else if (mode == 2) { prog += "k" + std::to_string(*g::range(0, N_KIND - 1)) + ":" + std::to_string(*resp) + " "; if (*g::chance(40)) prog += "o" + std::to_string(*g::range(0, (int) std::min<long>(total - 1, 5000))) + ":" + std::to_string(*resp) + " "; }
             else if (mode == 3) nullmask = *g::range(1, (1 << N_KIND) - 1);
             CaseFile c; c.set("doc", cm::ser_plain(d)); c.set("prog", prog); c.seti("nullmask", nullmask);
-            begin_case(c);
+            VH_BEGIN(c);
             if (c.get("doc").size() < 250) sample("prog=[" + prog + "] nullmask=" + std::to_string(nullmask) + " doc=" + c.get("doc"));
             std::string m = run_case(c);
             if (!m.empty()) { record_fail(c, m); RC_FAIL(m); }
